@@ -74,6 +74,10 @@ Proof.
     split; [rewrite A; cbn [rp_put_sig rp_rd_set_sigs rp_rd_set_io rp_io_]; congruence | exact B].
 Qed.
 
+Lemma rdm_scan_fsr_sample_id_inv : forall c, rr_inv (rp_io_ c) ->
+  rp_file (rp_io_ (fst (rp_scan_fsr_sample_id c))) = rp_file (rp_io_ c) /\ rr_inv (rp_io_ (fst (rp_scan_fsr_sample_id c))).
+Proof. intros c Hi. unfold rp_scan_fsr_sample_id. apply rdm_scan_sid_loop_inv. exact Hi. Qed.
+
 (* the state handed out by rdm_open *)
 Lemma rdm_open_opened : forall f st, rdm_open f = RdmOpened st ->
   exists c c1, rp_scan f = inr c /\ rp_scan_fsr_sample_id c = (c1, 0) /\ st = rdm_st0 c1.
@@ -89,8 +93,7 @@ Theorem rdm_open_inv : forall f st, rdm_open f = RdmOpened st ->
 Proof.
   intros f st H. destruct (rdm_open_opened f st H) as (c & c1 & Es & Esid & Hst). subst st.
   destruct (rdm_scan_inr_inv f c Es) as [Hf Hi].
-  pose proof (rdm_scan_sid_loop_inv (tl rp_signal_ids) c Hi) as [A B].
-  change (rp_scan_sid_loop (tl rp_signal_ids) c) with (rp_scan_fsr_sample_id c) in A, B. rewrite Esid in A, B. cbn [fst] in A, B.
+  pose proof (rdm_scan_fsr_sample_id_inv c Hi) as [A B]. rewrite Esid in A, B. cbn [fst] in A, B.
   split; [| split; reflexivity]. split; [| split; [exact B | constructor]].
   change (rp_file (rp_io_ c1) = f). congruence.
 Qed.
@@ -110,7 +113,7 @@ Proof.
   destruct (rp_scan f) as [[c rc] | c] eqn:Es.
   - cbn. repeat split.
   - destruct (fm_tag (wm_ck_hdr (rp_cur (rp_io_ c))) =? JLS_TAG_END).
-    + unfold rp_finish. destruct (rp_scan_fsr_sample_id c) as [c1 rc1]. destruct (rc1 =? 0) eqn:E.
+    + unfold rp_finish. cbn [rp_c rp_w0]. destruct (rp_scan_fsr_sample_id c) as [c1 rc1]. destruct (rc1 =? 0) eqn:E.
       * apply N.eqb_eq in E. subst rc1. cbn. repeat split.
       * cbn. repeat split.
     + exists c. split; reflexivity.
